@@ -9,7 +9,7 @@ import networkx as nx
 from ..index import AnalysisError
 from ..cfg import CFG, walk_no_nested, iter_stmts
 from ..fieldflow import FuncFlow
-from .common import visitor_transformer, check_field_flow, construct_of, cls_construct, position_visited, short
+from .common import visitor_transformer, check_field_flow, construct_of, cls_construct, position_visited, short, check_changed_flag
 
 MOD = "jaqalpaq.core.algorithm.expand_subcircuits"
 BLOCK = "jaqalpaq.core.block.BlockStatement"
@@ -206,6 +206,8 @@ def run(ctx, rep):
         rep.ok("C09.2", cons, "macro definitions are passed to visit and their bodies are visited")
     else:
         rep.violation("C09.2", cons, "macro definitions are copied without visiting their bodies: `macro m { subcircuit { g } }` keeps its subcircuit block", h.loc() if h else ix.classes[vis].loc())
+
+    check_changed_flag(ctx, rep, "C09.2", tr)
 
     # ------------------------------------------------------------ C09.4
     rep.rule("C09.4", "every entry point that feeds DiscoverSubcircuits applies the same normalising passes", floor=2)
